@@ -132,8 +132,56 @@ fn main() {
 			shard = args[s + 1].parse().unwrap();
 			n = args[s + 2].parse().unwrap();
 		}
-		let r = eng.run_part(&part, tier, shard, n);
-		par::emit(&r);
+		// A panic inside a worker is judged by where it comes from: a panic raised in the code
+		// under test (/repo or its dependencies), or a must-succeed operation of the subject that
+		// returned a grin error to the harness, is a verdict about the subject; anything else is a
+		// machinery failure (non-zero exit, never a verdict).
+		let last_panic: std::sync::Arc<std::sync::Mutex<Option<(String, String)>>> = Default::default();
+		{
+			let lp = last_panic.clone();
+			let prev = std::panic::take_hook();
+			std::panic::set_hook(Box::new(move |info| {
+				let loc = info.location().map(|l| format!("{}:{}", l.file(), l.line())).unwrap_or_default();
+				let msg = if let Some(s) = info.payload().downcast_ref::<String>() {
+					s.clone()
+				} else if let Some(s) = info.payload().downcast_ref::<&str>() {
+					s.to_string()
+				} else {
+					"panic".into()
+				};
+				if std::thread::current().name() == Some("main") {
+					*lp.lock().unwrap() = Some((loc, msg));
+				}
+				prev(info);
+			}));
+		}
+		let eng2 = engines().into_iter().find(|e| e.id() == prop).unwrap();
+		let part2 = part.clone();
+		let res = std::panic::catch_unwind(std::panic::AssertUnwindSafe(move || eng2.run_part(&part2, tier, shard, n)));
+		match res {
+			Ok(r) => par::emit(&r),
+			Err(_) => {
+				let (loc, msg) = last_panic.lock().unwrap().clone().unwrap_or_default();
+				let subject = loc.starts_with("/repo/") || loc.contains("/.cargo/registry/");
+				let grin_err = ["StoreErr", "TxHashSetErr", "InvalidRoot", "AlreadySpent", "Orphan", "Unfit", "Chain::init", "prelude", "builder", "LmdbErr", "SerErr", "Err(", "InvalidBlock", "Immature", "Committed", "Secp("]
+					.iter()
+					.any(|k| msg.contains(k));
+				if subject || grin_err {
+					let mut r = Report::new();
+					let short: String = msg.chars().take(300).collect();
+					r.violation(
+						format!("{}:{}", if subject { "subject-panicked" } else { "must-succeed-operation-failed" }, loc.rsplit('/').next().unwrap_or("")),
+						format!("part {} shard {}/{}: {} at {}: {}", part, shard, n, if subject { "the code under test panicked" } else { "an operation of the subject that must succeed on a valid history returned an error to the harness" }, loc, short),
+						serde_json::json!({"part": part, "shard": shard, "of": n, "location": loc, "message": short}),
+					);
+					r.capped = Some("worker stopped at the first panic".into());
+					par::emit(&r);
+				} else {
+					eprintln!("MACHINERY: worker {}:{} shard {}/{} panicked in the harness at {}: {}", prop, part, shard, n, loc, msg);
+					std::process::exit(2);
+				}
+			}
+		}
 		return;
 	}
 	let start = Instant::now();
